@@ -405,8 +405,8 @@ M("c01-cycle-check-removed", ["C01"], CX,
   "                obj._prototype = proto",
   [("C01", "C01-R8b", "set_prototype_of")])
 M("c20-split-empty-match-spins", ["C20", "C01"], VM,
-  "                        # Advance position (at least by 1 to avoid infinite loop on zero-width)\n                        pos = last_end if match_len > 0 else result.index + 1",
-  "                        pos = last_end",
+  "                        pos = last_end if result[0] else result.index + 1\n",
+  "                        pos = last_end\n",
   [("C20", "C20-R3$", "split"), ("C01", "C01-R8$", "split")])
 M("c01-in-walk-no-advance", ["C01"], VM,
   "                if current.has(key_str):\n                    found = True\n                    break\n                current = current._prototype",
@@ -822,3 +822,30 @@ M("c17-includes-strict-only", ["C17"], VM,
 T("t-c18-round-via-decimal-module-free", ["C18", "C04"], CX,
   "            result = math.floor(x)\n            if x - result >= 0.5:\n                result += 1\n",
   "            result = math.floor(x)\n            fraction = x - result\n            if fraction >= 0.5:\n                result = result + 1\n")
+# wave 5 (written against the tree of fix d0c0de9) and the repaired forms of its refactorings
+S("seed-C02-d", ["C02"], "seeded/C02-d/patch.diff", [("C02", "C02-R6", "finally-rethrow")], note="operands of the synthetic try contexts are no longer dropped by break/continue inside finally")
+S("seed-C03-c", ["C03"], "seeded/C03-c/patch.diff", [("C03", "C03-R8", "revive")], note="JSON.parse stores scalar array members unconverted: None leaks")
+S("seed-C05-d", ["C05"], "seeded/C05-d/patch.diff", [("C05", "C05-R12", "memo")], note="free-variable memo keyed by the node only")
+S("seed-C07-d", ["C07"], "seeded/C07-d/patch.diff", [("C07", "C07-R10", "_call_callback")], note="call stack truncated in the finally of the callback boundary")
+S("seed-C08-c", ["C08"], "seeded/C08-c/patch.diff", [("C08", "C08-R11", "_invoke_getter")], silent=["C03"], note="inherited getter run with the holder as this")
+S("seed-C10-c", ["C10"], "seeded/C10-c/patch.diff", [("C10", "C10-R3", "_compile_repeated")], note="unrolling loop outside the compile-step budget")
+S("seed-C12-c", ["C12"], "seeded/C12-c/patch.diff", [("C12", "C12-R7", "_get_property:bound")], note="interpreter-bound methods cached on arrays")
+S("seed-C17-c", ["C17"], "seeded/C17-c/patch.diff", [("C17", "C17-R14", "set_fn")], note="typed-array set reads the private mirror instead of the buffer")
+S("seed-C19-c", ["C19"], "seeded/C19-c/patch.diff", [("C19", "C19-R4c", "_json_text")], note="guard container dropped in the array branch of the recursion")
+S("seed-C20-c", ["C20"], "seeded/C20-c/patch.diff", [("C20", "C20-R4", "_advance_last_index")], note="lastIndex stepped over an empty match, keyed on the g flag")
+TP("t-json-text-method", ALL_PROPS, "selftest/patches/t-json-text-method.diff", note="JSON.stringify's serializer as a Context method sharing the boundary guard (repaired C19-c)")
+TP("t-get-property-single-pass", ALL_PROPS, "selftest/patches/t-get-property-single-pass.diff", note="one pass over the prototype chain for getters and data properties, receiver passed as this (repaired C08-c)")
+TP("t-json-parse-revive", ALL_PROPS, "selftest/patches/t-json-parse-revive.diff", note="JSON.parse builds arrays/objects with prototypes through its own converter (repaired C03-c)")
+TP("t-leave-try-helper", ALL_PROPS, "selftest/patches/t-leave-try-helper.diff", note="try handling of the leave code moved into a helper with try/finally (repaired C02-d)")
+TP("t-free-vars-memo", ALL_PROPS, "selftest/patches/t-free-vars-memo.diff", note="free-variable analysis memoised per function node with an unfiltered cached set (repaired C05-d)")
+
+M("c20-split-takes-empty-match-at-previous-end", ["C20"], VM,
+  "                        if match_end == last_end:\n                            pos = result.index + 1\n                            continue\n", "",
+  [("C20", "C20-R5", "empty-match-at-previous-end")], note="fix b4f512e reverted: empty pieces again")
+M("c20-exec-steps-over-empty-match", ["C20"], "src/microjs/regex/regex.py",
+  "                end_cp = result.index + len(result[0])\n", "                end_cp = result.index + len(result[0]) if result[0] else result.index + 1\n",
+  [("C20", "C20-R4", "exec")], note="fix 612acbc reverted in exec")
+M("c17-set-copies-in-place", ["C17"], VM,
+  "                values = [source.get_index(i) for i in range(source.length)]\n                for i, value in enumerate(values):\n                    arr.set_index(offset + i, value)\n",
+  "                for i in range(source.length):\n                    arr.set_index(offset + i, source.get_index(i))\n",
+  [("C17", "C17-R15", "set_fn")], note="fix e8d1609 reverted")
